@@ -297,6 +297,14 @@ def generate(run_seed, tier):
         mcfg['ngauss'] = c.randint(2, 5)
         if fam == 'transmission':
             mcfg['new_path'] = c.random() < 0.3
+        if cfg['part'] == 'reload' and c.random() < 0.25:
+            # H- continuum: needs H and e- in the chemistry (no opacity data)
+            mcfg['contribs'] = mcfg['contribs'] + ['HydrogenIon']
+            mcfg['molecules'] += [
+                {'name': 'H', 'mix': 10 ** c.uniform(-5, -3), 'inactive': True},
+                {'name': 'e-', 'mix': 10 ** c.uniform(-8, -6),
+                 'inactive': True}]
+            mcfg['opac']['wn'] = [3000.0, 3000.0 * 10 ** c.uniform(0.4, 0.9)]
         if cfg['part'] == 'reload' and c.random() < 0.4:
             # an explicit trace gas without opacity data (inactive)
             mcfg['molecules'].append({'name': c.choice(['N2', 'O2', 'Ar']),
@@ -1064,7 +1072,8 @@ def check_reload(viol, out, fname, model, cfg):
                'CIAContribution': 'CIA', 'RayleighContribution': 'Rayleigh',
                'SimpleCloudsContribution': 'SimpleClouds',
                'FlatMieContribution': 'FlatMie',
-               'LeeMieContribution': 'LeeMie'}
+               'LeeMieContribution': 'LeeMie',
+               'HydrogenIon': 'HydrogenIon'}
     order2 = [cls2cfg[type(c).__name__] for c in m2.contribution_list]
     if order2 != [cls2cfg[type(c).__name__] for c in model.contribution_list]:
         out.bump('probes', 'reload_changed_contribution_order')
